@@ -43,7 +43,20 @@ def add2d(x):
 
 
 defvjp(det, lambda ans, x: lambda g: add2d(g) * add2d(ans) * T(inv(x)))
-defvjp(slogdet, lambda ans, x: lambda g: add2d(g[1]) * T(inv(x)))
+
+
+def grad_slogdet(ans, x):
+    def vjp(g):
+        out = add2d(g[1]) * T(inv(x))
+        if anp.iscomplexobj(x):
+            # the sign det/|det| of a complex matrix varies smoothly: d sign = 1j * sign * Im tr(inv(x) dx)
+            out = out + 1j * add2d(anp.imag(g[0] * ans[0])) * T(inv(x))
+        return out
+
+    return vjp
+
+
+defvjp(slogdet, grad_slogdet)
 
 
 def grad_inv(ans, x):
